@@ -1,20 +1,37 @@
 """T-callmsg: the first-order decision logic of the message-call machinery of
 src/halmos/sevm.py -> coq/Gen/GenCallMsg.v  (used by Model/CallModel.v, property C09).
 
-Translated, each from one whitelisted syntactic shape (fail-closed):
-  SEVM.call      fund; Message(target, caller, origin, value, is_static, call_scheme);
-                 the guard of send_callvalue and the (from, to, amount) it passes on;
+Translated, each from one whitelisted syntactic shape (fail-closed; where a defect was repaired
+the shape before the repair is accepted too, so that the model follows a tree in which the
+repair is reverted and the theorems -- not only the translator -- report it):
+  SEVM.call      fund; the static-context test of a value-bearing CALL (absent = false);
+                 Message(target, caller, origin, value, is_static, call_scheme);
+                 the guard of send_callvalue and the (from, to, amount) it passes on, the balance
+                 requirement of the scheme that moves nothing (CALLCODE; absent = none);
                  the arguments of handle_insufficient_fund_case; which network-state
                  fields the callback restores under `if not subcall_success`;
                  subcall_success; the two copy_returndata_to_memory arguments
   SEVM.create    the static check, Message(...) fields, restored fields, the order
                  backup -> set-up -> transfer
+  copy or alias  for code / storage / transient_storage: whether the backups (orig_X = ...), the
+                 restores (new_ex.X = ...) of both callbacks and create_branch hand over a private
+                 copy (dict.copy() of the code map, deepcopy of the storage maps) or the object
+                 itself -> call_backup_copies_*, call_restore_copies_*, create_backup_copies_*,
+                 create_restore_copies_*, branch_copies_* (used by Model/CallHeapModel.v)
+  pinned         sub_ex shares ex.<field>; the callbacks re-install the parent's context / stack+memory
+                 / jumpis as deepcopies; create_branch copies cnts / st / context / jumpis; the worklist
+                 is LIFO and the main loop prefers the state just advanced; JUMPI with both sides
+                 followed: true side = create_branch copy pushed first, false side = the state
+                 itself pushed last; the insufficient-funds fork precedes the call dispatch
+  EXTCODESIZE / EXTCODECOPY   size of an existing / non-existing account; which accounts are read
+                 through Contract.slice and how many zero bytes the others yield
   handle_insufficient_fund_case   the zero shortcut and the insufficiency condition
   transfer_value the zero shortcut, the balance condition, debit-then-credit
   copy_returndata_to_memory       effective size
   Exec.returndata                 the visibility rule
   Exec.new_address                counter scheme
-  SEVM.run       the depth-limit guard; the static checks of SSTORE/TSTORE (sstore) and LOG
+  SEVM.run       the depth-limit guard; the static checks of SSTORE/TSTORE (sstore) and LOG;
+                 RETURNDATACOPY: whether the bound test is under the size guard, the bound, the copy guard
 """
 import ast
 
@@ -146,35 +163,68 @@ MSG_FIELDS = ["target", "caller", "origin", "value", "data", "is_static", "call_
 NET_FIELDS = ["code", "storage", "transient_storage", "balance"]
 
 
+COPY_FIELDS = ["code", "storage", "transient_storage"]     # mutable Python objects (balance is an immutable z3 term)
+
+
+def _copy_kind(f, value, src):
+    """how `value` is obtained from the object `src` of field f: True = a private copy
+    (dict.copy() of the code map -- Contract objects are immutable --, deepcopy of the
+    storage maps), False = the object itself (alias)"""
+    v = U(value)
+    if f == "balance":
+        if v != src:
+            raise TranslateError(f"balance is handed over as {v}")
+        return None
+    if v == src:
+        return False
+    if (f == "code" and v == f"{src}.copy()") or (f != "code" and v == f"deepcopy({src})"):
+        return True
+    raise TranslateError(f"{f}: unexpected way of handing over {src}: {v}")
+
+
 def _restored(if_stmt, who):
-    """fields X with `new_ex.X = <something mentioning orig_X>` in the statement list"""
-    out = []
+    """fields X with `new_ex.X = <orig_X | copy of orig_X>` in the statement list -> {X: copies?}"""
+    out = {}
     for s in if_stmt:
         if isinstance(s, ast.Assign) and len(s.targets) == 1 and isinstance(s.targets[0], ast.Attribute) and U(s.targets[0].value) == who:
             f = s.targets[0].attr
             if f in NET_FIELDS:
-                names = {n.id for n in ast.walk(s.value) if isinstance(n, ast.Name)}
-                if names - {"deepcopy"} != {f"orig_{f}"}:
-                    raise TranslateError(f"restore of {f} does not use orig_{f} alone: {U(s)}")
-                out.append(f)
+                if f in out:
+                    raise TranslateError(f"{f} restored twice")
+                out[f] = _copy_kind(f, s.value, f"orig_{f}")
     return out
 
 
 def _backups(stmts):
-    """orig_X = <expr over ex.X>; returns {field: statement index}"""
-    out = {}
+    """orig_X = <ex.X | copy of ex.X>; returns ({field: statement index}, {field: copies?})"""
+    out, kinds = {}, {}
     for i, s in enumerate(stmts):
         if isinstance(s, ast.Assign) and len(s.targets) == 1 and isinstance(s.targets[0], ast.Name) and s.targets[0].id.startswith("orig_"):
             f = s.targets[0].id[5:]
-            ok = [f"ex.{f}.copy()", f"deepcopy(ex.{f})", f"ex.{f}"]
-            if f not in NET_FIELDS or U(s.value) not in ok:
+            if f not in NET_FIELDS or f in out:
                 raise TranslateError(f"unexpected backup statement {U(s)}")
-            if f == "balance" and U(s.value) != "ex.balance":
-                raise TranslateError(f"unexpected backup statement {U(s)}")
-            if f != "balance" and U(s.value) == f"ex.{f}":
-                raise TranslateError(f"backup of {f} is an alias, not a copy: {U(s)}")
+            kinds[f] = _copy_kind(f, s.value, f"ex.{f}")
             out[f] = i
-    return out
+    return out, kinds
+
+
+def _emit_copies(emit, prefix, kinds):
+    for f in COPY_FIELDS:
+        emit(f"{prefix}_{f}", "", "bool", "true" if kinds.get(f, True) else "false")
+
+
+def _pin_callback_copies(cb, who):
+    """the caller's frame objects captured by the callback are handed to every callee path as
+    private copies (they are shared by all the paths of the callee)"""
+    want = {"context": "deepcopy(ex.context)", "st": "deepcopy(ex.st)", "jumpis": "deepcopy(ex.jumpis)",
+            "pgm": "ex.pgm", "pc": "ex.pc", "insn": "ex.insn", "callback": "ex.callback"}
+    seen = {}
+    for s in ast.walk(cb):
+        if isinstance(s, ast.Assign) and len(s.targets) == 1 and isinstance(s.targets[0], ast.Attribute) and U(s.targets[0].value) == who \
+                and s.targets[0].attr in want:
+            seen[s.targets[0].attr] = U(s.value)
+    if seen != want:
+        raise TranslateError(f"callback: the parent frame is restored as {seen}, expected {want}")
 
 
 def _index(stmts, pred, what):
@@ -226,18 +276,70 @@ def translate(src_text):
     i_hif = _index(call.body, lambda s: isinstance(s, ast.Expr) and U(s.value).startswith("self.handle_insufficient_fund_case"), "hif call")
     if not i_msg < i_hif:
         raise TranslateError("call: handle_insufficient_fund_case before the message is built")
+    i_hif_call = i_hif
+    # the static-context check of a value-bearing CALL (absent = the value-bearing CALL is executed)
+    i_fund = _index(call.body, lambda s: isinstance(s, (ast.Assign, ast.AnnAssign)) and U(s.target if isinstance(s, ast.AnnAssign) else s.targets[0]) == "fund", "fund assignment")
+    st_ifs = [i for i, s in enumerate(call.body) if isinstance(s, ast.If) and "is_static" in U(s.test)]
+    if len(st_ifs) > 1:
+        raise TranslateError("call: more than one static-context test")
+    if st_ifs:
+        i_st = st_ifs[0]
+        sif = call.body[i_st]
+        if not (i_fund < i_st < i_msg) or sif.orelse:
+            raise TranslateError("call: the static-context test must sit between the fund and the message, without else")
+        # everything between popping the fund and the test must be free of effects on the network state
+        for s in call.body[i_fund + 1:i_st]:
+            if not (isinstance(s, ast.Expr) and isinstance(s.value, ast.Constant)):
+                raise TranslateError(f"call: unexpected statement before the static-context test: {U(s)}")
+        inner = [s for s in sif.body if not (isinstance(s, ast.Expr) and isinstance(s.value, ast.Constant))]
+        # a symbolic value in a static frame is a stuck path (NotConcreteError), not an outcome
+        if len(inner) == 2 and isinstance(inner[0], ast.If) and U(inner[0].test) == "fund.is_symbolic" and not inner[0].orelse \
+                and len(inner[0].body) == 1 and U(inner[0].body[0]).startswith("raise NotConcreteError("):
+            inner = inner[1:]
+        if not (len(inner) == 1 and isinstance(inner[0], ast.If) and not inner[0].orelse and len(inner[0].body) == 1
+                and U(inner[0].body[0]).startswith("raise WriteInStaticContext(")):
+            raise TranslateError(f"call: unexpected body of the static-context test: {[U(s) for s in sif.body]}")
+        senv = {"op": ("op", "Z"), "ex.message().is_static": ("cur_static", "bool"), "ex.context.message.is_static": ("cur_static", "bool"),
+                "fund.value": ("fund", "Z"), "fund": ("fund", "Z"), "ZERO": ("0", "Z")}
+        se = Ex(senv, ops)
+        emit("call_static_value_check", "(op : Z) (cur_static : bool) (fund : Z) ", "bool", f"(andb {se.b(sif.test)} {se.b(inner[0].test)})")
+    else:
+        emit("call_static_value_check", "(op : Z) (cur_static : bool) (fund : Z) ", "bool", "false")
     scv = _nested(call, "send_callvalue")
     body = [s for s in scv.body if not (isinstance(s, ast.Expr) and isinstance(s.value, ast.Constant))]
-    if len(body) != 1 or not isinstance(body[0], ast.If) or body[0].orelse:
-        raise TranslateError("send_callvalue: a single `if` expected")
+    if len(body) != 1 or not isinstance(body[0], ast.If):
+        raise TranslateError("send_callvalue: a single `if` (with an optional `elif`) expected")
     emit("sends_value", "(op : Z) ", "bool", Ex({"op": ("op", "Z")}, ops).b(body[0].test))
+    if len(body[0].body) != 1:
+        raise TranslateError("send_callvalue: the transferring branch must be the single transfer_value call")
     tv = _call_stmt(body[0].body, "self.transfer_value")
     if [U(a) for a in tv.args] != ["ex", "pranked_caller", "to", "fund", "condition"]:
         raise TranslateError("send_callvalue: unexpected arguments of transfer_value")
+    # elif: a scheme that moves nothing but still needs the balance (CALLCODE); absent = no requirement
+    if not body[0].orelse:
+        emit("callvalue_checks_balance", "(op fund : Z) ", "bool", "false")
+        emit("callvalue_balance_ok", "(bal fund : Z) ", "bool", "true")
+    else:
+        if not (len(body[0].orelse) == 1 and isinstance(body[0].orelse[0], ast.If) and not body[0].orelse[0].orelse):
+            raise TranslateError("send_callvalue: a single `elif` without `else` expected")
+        el = body[0].orelse[0]
+        eenv = {"op": ("op", "Z"), "fund.is_concrete and fund.value == 0": ("(Z.eqb fund 0)", "bool")}
+        emit("callvalue_checks_balance", "(op fund : Z) ", "bool", Ex(eenv, ops).b(el.test))
+        eb = [s for s in el.body if not (isinstance(s, ast.Expr) and isinstance(s.value, ast.Constant))]
+        if len(eb) != 3:
+            raise TranslateError(f"send_callvalue: unexpected elif body {[U(s) for s in eb]}")
+        benv = {"ex.balance_of(pranked_caller)": ("bal", "Z"), "fund.as_z3()": ("fund", "Z")}
+        emit("callvalue_balance_ok", "(bal fund : Z) ", "bool", Ex(benv).b(_assign_to(eb[:1], "balance_cond")))
+        if not (isinstance(eb[1], ast.If) and U(eb[1].test) == "is_false(balance_cond)" and not eb[1].orelse and len(eb[1].body) == 1
+                and U(eb[1].body[0]).startswith("raise InfeasiblePath(")):
+            raise TranslateError("send_callvalue: elif infeasibility test")
+        if U(eb[2]) != "ex.path.append(balance_cond)":
+            raise TranslateError("send_callvalue: the elif must append balance_cond to the path")
     ck = _nested(call, "call_known")
-    bk = _backups(ck.body)
+    bk, bk_kinds = _backups(ck.body)
     if sorted(bk) != sorted(NET_FIELDS):
         raise TranslateError(f"call_known: backups {sorted(bk)}")
+    _emit_copies(emit, "call_backup_copies", bk_kinds)
     i_send = _index(ck.body, lambda s: isinstance(s, ast.Expr) and U(s.value) == "send_callvalue()", "send_callvalue() in call_known")
     emit("call_backup_before_transfer", "", "bool", "true" if max(bk.values()) < i_send else "false")
     i_cb = _index(ck.body, lambda s: isinstance(s, ast.FunctionDef) and s.name == "callback", "callback")
@@ -253,6 +355,8 @@ def translate(src_text):
     rs = _restored(rif.body, "new_ex")
     for f in NET_FIELDS:
         emit(f"call_restores_{f}", "", "bool", "true" if f in rs else "false")
+    _emit_copies(emit, "call_restore_copies", rs)
+    _pin_callback_copies(cb, "new_ex")
     other = [U(s) for s in cb.body if isinstance(s, ast.Assign) and isinstance(s.targets[0], ast.Attribute)
              and U(s.targets[0].value) == "new_ex" and s.targets[0].attr in NET_FIELDS]
     if other:
@@ -387,9 +491,10 @@ def translate(src_text):
     cl = [U(s) for s in coll.body]
     if cl[:2] != ["ex.st.push(ZERO)", "ex.advance()"] or cl[-2:] != ["stack.push(ex)", "return"] or "subcall.output.data = ByteVec()" not in cl or "subcall.output.error = AddressCollision()" not in cl:
         raise TranslateError("create: collision branch")
-    bk = _backups(cr.body)
+    bk, bk_kinds = _backups(cr.body)
     if sorted(bk) != sorted(NET_FIELDS):
         raise TranslateError(f"create: backups {sorted(bk)}")
+    _emit_copies(emit, "create_backup_copies", bk_kinds)
     i_hif = _index(cr.body, lambda s: isinstance(s, ast.Expr) and U(s.value).startswith("self.handle_insufficient_fund_case"), "hif")
     i_coll = cr.body.index(coll)
     i_setc = _index(cr.body, lambda s: U(s) == "ex.set_code(new_addr, Contract(b''))", "set_code of the new account")
@@ -417,6 +522,8 @@ def translate(src_text):
     rs = _restored(ok.orelse, "new_ex")
     for f in NET_FIELDS:
         emit(f"create_restores_{f}", "", "bool", "true" if f in rs else "false")
+    _emit_copies(emit, "create_restore_copies", rs)
+    _pin_callback_copies(cb, "new_ex")
     sub = _assign_to(cr.body, "sub_ex")
     skw = {k.arg: U(k.value) for k in sub.keywords}
     for f in NET_FIELDS:
@@ -452,16 +559,140 @@ def translate(src_text):
     rc_ifs = [n for n in ast.walk(run) if isinstance(n, ast.If) and U(n.test) == "opcode == OP_RETURNDATACOPY"]
     if len(rc_ifs) != 1:
         raise TranslateError("run: RETURNDATACOPY arm")
-    guard = _find(rc_ifs[0].body, lambda s: isinstance(s, ast.If), "RETURNDATACOPY size guard")
-    emit("retcopy_guard", "(size : Z) ", "bool", "(negb (Z.eqb size 0))" if U(guard.test) == "size" else "true" if U(guard.test) == "True" else _bad(guard))
-    oob = _find(guard.body, lambda s: isinstance(s, ast.If), "RETURNDATACOPY bound test")
-    if not U(oob.body[0]).startswith("raise OutOfBoundsRead("):
-        raise TranslateError("run: RETURNDATACOPY bound test must raise OutOfBoundsRead")
+    # two accepted shapes:  `if <oob>: raise`  followed by  `if size: <copy>`   (bound test unguarded)
+    #                       `if size: (if <oob>: raise) <copy>`                 (bound test under the size guard)
+    top_ifs = [s for s in rc_ifs[0].body if isinstance(s, ast.If)]
+
+    def _is_oob(s):
+        return isinstance(s, ast.If) and not s.orelse and len(s.body) == 1 and U(s.body[0]).startswith("raise OutOfBoundsRead(")
+
+    def _guard_of(s):
+        if s.orelse:
+            raise TranslateError("run: RETURNDATACOPY size guard with else")
+        return "(negb (Z.eqb size 0))" if U(s.test) == "size" else "true" if U(s.test) == "True" else _bad(s)
+
+    if len(top_ifs) == 2 and _is_oob(top_ifs[0]) and not _is_oob(top_ifs[1]):
+        oob, guard = top_ifs
+        if [s for s in guard.body if isinstance(s, ast.If)]:
+            raise TranslateError("run: RETURNDATACOPY unexpected nested test")
+        emit("retcopy_guard", "(size : Z) ", "bool", "true")
+        copy_body = guard.body
+    elif len(top_ifs) == 1 and not _is_oob(top_ifs[0]):
+        guard = top_ifs[0]
+        oob = _find(guard.body, lambda s: isinstance(s, ast.If), "RETURNDATACOPY bound test")
+        if not _is_oob(oob) or guard.body.index(oob) != 0:
+            raise TranslateError("run: RETURNDATACOPY bound test must come first and raise OutOfBoundsRead")
+        emit("retcopy_guard", "(size : Z) ", "bool", _guard_of(guard))
+        copy_body = guard.body[1:]
+    else:
+        raise TranslateError("run: RETURNDATACOPY arm has an unexpected shape")
+    emit("retcopy_copy_guard", "(size : Z) ", "bool", _guard_of(guard))
     env = {"offset": ("offset", "Z"), "size": ("size", "Z"), "ex.returndatasize()": ("rds", "Z")}
     emit("retcopy_oob", "(offset size rds : Z) ", "bool", Ex(env).b(oob.test))
-    sl = _assign_to(guard.body, "data")
-    if U(sl) != "ex.returndata().slice(offset, offset + size)":
-        raise TranslateError("run: RETURNDATACOPY slice")
+    if [U(s) for s in copy_body if not (isinstance(s, ast.Expr) and isinstance(s.value, ast.Constant))] != \
+            ["data: ByteVec = ex.returndata().slice(offset, offset + size)", "state.set_mslice(loc, data)"]:
+        raise TranslateError(f"run: RETURNDATACOPY copy {[U(s) for s in copy_body]}")
+    pre = [U(s) for s in rc_ifs[0].body if not isinstance(s, ast.If)]
+    if pre != ["loc: int = ex.mloc(check_size=False)", "offset = ex.int_of(state.pop(), 'symbolic RETURNDATACOPY offset')",
+               "size: int = ex.int_of(state.pop(), 'symbolic RETURNDATACOPY size')"]:
+        raise TranslateError(f"run: RETURNDATACOPY operands {pre}")
+
+    # ------------------------------------------------------------------ EXTCODESIZE / EXTCODECOPY (what a frame sees of another account's code)
+    es_ifs = [n for n in ast.walk(run) if isinstance(n, ast.If) and U(n.test) == "opcode == OP_EXTCODESIZE"]
+    if len(es_ifs) != 1:
+        raise TranslateError("run: EXTCODESIZE arm")
+    es = _find(es_ifs[0].body, lambda s: isinstance(s, ast.If), "EXTCODESIZE alias test")
+    if U(es.test) != "account_alias is not None" or [U(s) for s in es.body] != ["codesize = BV(len(ex.code[account_alias]))"]:
+        raise TranslateError("run: EXTCODESIZE of an existing account must be len(ex.code[alias])")
+    if len(es.orelse) != 1 or not U(es.orelse[0]).startswith("codesize = ONE if account in [hevm_cheat_code.address, halmos_cheat_code.address] else ZERO"):
+        raise TranslateError(f"run: EXTCODESIZE of a non-existing account: {[U(s) for s in es.orelse]}")
+    ec_ifs = [n for n in ast.walk(run) if isinstance(n, ast.If) and U(n.test) == "opcode == OP_EXTCODECOPY"]
+    if len(ec_ifs) != 1:
+        raise TranslateError("run: EXTCODECOPY arm")
+    ec = ec_ifs[0].body
+    pre = [U(s) for s in ec if not isinstance(s, ast.If)]
+    if pre != ["account: BV = uint160(state.peek())", "account_alias = self.resolve_address_alias(ex, account, stack)", "state.pop()",
+               "loc: int = ex.int_of(state.pop(), 'symbolic EXTCODECOPY offset')", "offset: int = ex.int_of(state.pop(), 'symbolic EXTCODECOPY offset')",
+               "size: int = ex.int_of(state.pop(), 'symbolic EXTCODECOPY size')"]:
+        raise TranslateError(f"run: EXTCODECOPY operands {pre}")
+    eg = _find(ec, lambda s: isinstance(s, ast.If), "EXTCODECOPY size guard")
+    if U(eg.test) != "size" or eg.orelse:
+        raise TranslateError("run: EXTCODECOPY size guard")
+    emit("extcodecopy_guard", "(size : Z) ", "bool", "(negb (Z.eqb size 0))")
+    eb = [s for s in eg.body if not (isinstance(s, ast.If) and U(s.test) == "account_alias is None")]
+    if len(eb) != 3 or U(eb[2]) != "state.set_mslice(loc, codeslice)":
+        raise TranslateError(f"run: EXTCODECOPY body {[U(s) for s in eb]}")
+    acc, cs = U(eb[0].value), eb[1].value
+    senv = {"offset": ("offset", "Z"), "size": ("size", "Z")}
+
+    def _empty_len(call):
+        """length of ByteVec().slice(start, stop) = max(0, stop - start) zero bytes"""
+        if not (isinstance(call, ast.Call) and U(call.func) == "ByteVec().slice" and len(call.args) == 2 and not call.keywords):
+            raise TranslateError(f"run: EXTCODECOPY empty-account slice {U(call)}")
+        e = Ex(senv)
+        return f"(Z.max 0 (Z.sub {e.z(call.args[1])} {e.z(call.args[0])}))"
+
+    if U(eb[0].target) != "account_code" or U(eb[1].target) != "codeslice":
+        raise TranslateError("run: EXTCODECOPY account_code / codeslice")
+    if acc == "ex.code.get(account_alias)" and isinstance(cs, ast.IfExp):
+        # Contract.slice(start, size) for an existing account, else zero bytes
+        if U(cs.test) != "account_code is not None" or U(cs.body) != "account_code.slice(offset, size)":
+            raise TranslateError(f"run: EXTCODECOPY slice {U(cs)}")
+        emit("extcodecopy_use_code", "(has_account : bool) (codelen : Z) ", "bool", "has_account")
+        emit("extcodecopy_empty_len", "(offset size : Z) ", "Z", _empty_len(cs.orelse))
+    elif acc == "ex.code.get(account_alias) or ByteVec()" and U(cs) == "account_code.slice(offset, size)":
+        # a Contract with empty code is falsy (Contract.__len__): it reads as ByteVec().slice(offset, size) too
+        emit("extcodecopy_use_code", "(has_account : bool) (codelen : Z) ", "bool", "(andb has_account (negb (Z.eqb codelen 0)))")
+        emit("extcodecopy_empty_len", "(offset size : Z) ", "Z", "(Z.max 0 (Z.sub size offset))")
+    else:
+        raise TranslateError(f"run: EXTCODECOPY account_code = {acc}; codeslice = {U(cs)}")
+
+    # ------------------------------------------------------------------ path forks: create_branch, JUMPI, the worklist
+    br = find_function(tree, "create_branch", cls="SEVM")
+    ret = _find(br.body, lambda s: isinstance(s, ast.Return), "create_branch return")
+    if U(ret.value) != "new_ex":
+        raise TranslateError("create_branch: return new_ex expected")
+    nex = _assign_to(br.body, "new_ex")
+    if not (isinstance(nex, ast.Call) and U(nex.func) == "Exec" and not nex.args):
+        raise TranslateError("create_branch: new_ex = Exec(...) expected")
+    bkw = {k.arg: k.value for k in nex.keywords}
+    kinds = {f: _copy_kind(f, bkw[f], f"ex.{f}") for f in NET_FIELDS if f in bkw}
+    if sorted(kinds) != sorted(NET_FIELDS):
+        raise TranslateError(f"create_branch: network-state fields {sorted(kinds)}")
+    _emit_copies(emit, "branch_copies", kinds)
+    for f, want in (("cnts", "deepcopy(ex.cnts)"), ("st", "deepcopy(ex.st)"), ("context", "deepcopy(ex.context)"), ("callback", "ex.callback"),
+                    ("jumpis", "deepcopy(ex.jumpis)"), ("pgm", "ex.pgm"), ("pc", "target")):
+        if f not in bkw or U(bkw[f]) != want:
+            raise TranslateError(f"create_branch: {f}={U(bkw[f]) if f in bkw else None}, expected {want}")
+    wl = [n for n in tree.body if isinstance(n, ast.ClassDef) and n.name == "Worklist"]
+    if len(wl) != 1:
+        raise TranslateError("class Worklist")
+    wpush = [U(s) for s in find_function(tree, "push", cls="Worklist").body]
+    wpop = find_function(tree, "pop", cls="Worklist").body
+    if wpush != ["self.stack.append(ex)"] or not (len(wpop) == 1 and isinstance(wpop[0], ast.Try) and [U(s) for s in wpop[0].body] == ["return self.stack.pop()"]):
+        raise TranslateError("Worklist: push = append / pop = stack.pop() (LIFO) expected")
+    # the main loop takes the state it just advanced, else the most recently pushed one
+    loops = [n for n in ast.walk(run) if isinstance(n, ast.While)]
+    if len(loops) != 1 or U(loops[0].test) != "(ex := (next_ex or stack.pop())) is not None":
+        raise TranslateError(f"run: main loop must be `while (ex := next_ex or stack.pop()) is not None`, found {[U(l.test) for l in loops]}")
+    # JUMPI with both sides followed: the TRUE side is a create_branch copy pushed first (explored
+    # last), the FALSE side is the state itself, pushed last (explored first)
+    ji = find_function(tree, "jumpi", cls="SEVM")
+    ft = _find(ji.body, lambda s: isinstance(s, ast.If) and U(s.test) == "follow_true", "jumpi `if follow_true`")
+    inner = _find(ft.body, lambda s: isinstance(s, ast.If) and U(s.test) == "follow_false", "jumpi `if follow_false` under follow_true")
+    if [U(s) for s in inner.body] != ["new_ex_true = self.create_branch(ex, cond_true, target)"] or not inner.orelse or U(inner.orelse[0]) != "new_ex_true = ex":
+        raise TranslateError("jumpi: the true side must be create_branch(ex, ...) when both sides are followed, else ex")
+    ff = _find(ji.body, lambda s: isinstance(s, ast.If) and U(s.test) == "follow_false", "jumpi `if follow_false`")
+    if U(ff.body[0]) != "new_ex_false = ex":
+        raise TranslateError("jumpi: the false side must be ex itself")
+    pushes = [U(n.args[0]) for n in ast.walk(ji) if isinstance(n, ast.Call) and U(n.func) == "stack.push"]
+    if pushes != ["new_ex_true", "new_ex_false"]:
+        raise TranslateError(f"jumpi: push order {pushes}")
+    if not ji.body.index(ft) < ji.body.index(ff):
+        raise TranslateError("jumpi: the true side must be prepared (copied) before the false side is advanced")
+    # SEVM.call: the insufficient-funds branch is forked before the dispatch to call_known / call_unknown
+    if not i_hif_call < call.body.index(disp):
+        raise TranslateError("call: handle_insufficient_fund_case must come before the dispatch")
 
     head = ["(* GENERATED by translate/t_callmsg.py from src/halmos/sevm.py -- do not edit *)",
             "From Coq Require Import ZArith Bool.", "From HV Require Import Gen.GenOpcodes Gen.GenConsts.", "Open Scope Z_scope.", ""]
@@ -476,7 +707,9 @@ def selfcheck(info):
     """The decision functions have no importable counterpart (they are inline code); the
     cross-check is the L2 correspondence run of C09.  Here: sanity of what was emitted."""
     bad = []
-    for k in ("msg_target", "msg_caller", "msg_value", "msg_static", "call_fund", "sends_value", "insufficient", "balance_ok"):
+    for k in ("msg_target", "msg_caller", "msg_value", "msg_static", "call_fund", "sends_value", "insufficient", "balance_ok",
+              "call_static_value_check", "callvalue_checks_balance", "retcopy_guard", "retcopy_copy_guard", "extcodecopy_empty_len",
+              "call_restore_copies_storage", "create_restore_copies_storage", "branch_copies_storage", "call_backup_copies_storage"):
         if k not in info:
             bad.append(f"missing {k}")
     return bad
